@@ -69,6 +69,10 @@ func (g *G) propValue(d *ref.PropDef, zero bool) ref.Prop {
 		p.N = g.Varint()
 	case ref.KUTF8:
 		p.B = g.Str(g.Len1())
+		if c, ok := fieldCorpus[d.ID]; ok && g.T.Bool(1, 3) {
+			// a value that MEANS something for this property
+			p.B = []byte(c[g.T.Int(len(c))])
+		}
 	case ref.KBinary:
 		p.B = g.Bin(g.Len1())
 	case ref.KPair:
@@ -184,6 +188,19 @@ func (g *G) collideFilters(a *ref.AP) {
 			a.Filters[i].Name, a.Filters[j].Name, _ = g.Colliding()
 		}
 	}
+}
+
+// fieldCorpus: values with a meaning for string-typed properties (code that
+// "understands" a content type, an authentication method or a server
+// reference behaves differently on them than on random strings).
+var fieldCorpus = map[byte][]string{
+	0x03: {"text/plain", "text/plain; charset=utf-8", "text/", "text/html", "application/json", "application/octet-stream", "application/x-protobuf", "image/png", "json", "TEXT/PLAIN"},
+	0x08: {"reply/to", "$SYS/reply", "a/+/b", "#", "response/client-1", "/"},
+	0x15: {"PLAIN", "SCRAM-SHA-1", "SCRAM-SHA-256", "GS2-KRB5", "OAUTHBEARER", "EXTERNAL", "plain"},
+	0x12: {"client-1", "auto-0000000000000001", "mqtt", "MQTT"},
+	0x1A: {"{}", "ok", "response-information", "a/b"},
+	0x1C: {"localhost:1883", "example.com", "10.0.0.1:8883", "[::1]:1883", "other-server example.com:1883"},
+	0x1F: {"ok", "not authorized", "bad user name or password", "quota exceeded", "Success", "error: %v"},
 }
 
 // Packet draws one abstract packet.
